@@ -30,10 +30,15 @@ ASSUMPTIONS = ["mpmath arithmetic (50-3000 digits) is the exact reference", "the
 MPX = mpmath.mp.clone()
 
 THETAS = [0.0, 5e-324, 1e-300, 1e-200, 1e-160, 1e-100, 1e-50, 1e-20, 1e-12] + [10.0 ** (k / 4.0) for k in range(-36, 1)]
+THETAS_FINE = sorted(set(THETAS + [10.0 ** (k / 16.0) for k in range(-64, 1)] + [0.05 * k for k in range(1, 21)]))
+
+
+def thetas(tier):
+    return THETAS_FINE if tier == "thorough" else THETAS
 
 
 def bounds(tier):
-    return dict(n_theta=len(THETAS), axes=3)
+    return dict(n_theta=len(thetas(tier)), axes=9 if tier == "thorough" else 2)
 
 
 # ---------------------------------------------------------------------------------------------------
@@ -202,19 +207,20 @@ def explore_consumer(case):
         for op in jac_ops:
             B.get(op)
             progs[op] = sxvm.compile_fn(B.get(op))
-    axes = _axes(seed) if tier == "thorough" else [_axes(seed)[0], _axes(seed)[2]]
+    axes = (_axes(seed) + alpha.axes(seed)[7:]) if tier == "thorough" else [_axes(seed)[0], _axes(seed)[2]]
+    TH = thetas(tier)
     has_tr = any(s[0] == "vec" for s in AL)
     n = B.mshape[0]
     signed = any(sl[0] == "angle" for sl in AL)
     for ax in axes:
         for tr in ([0.0, 3.0] if has_tr else [0.0]):
-            ths = list(THETAS) + ([-t for t in THETAS if t > 0] if signed else [])
+            ths = list(TH) + ([-t for t in TH if t > 0] if signed else [])
             # harvest the switches of every compiled function along this ray
             bpairs = []
             for op, prog in progs.items():
                 if op == "log":
                     continue
-                for lo, hi in harvest.walk(prog, lambda t: [list(_mk_x(AL, ax, t, tr))], sorted(THETAS)):
+                for lo, hi in harvest.walk(prog, lambda t: [list(_mk_x(AL, ax, t, tr))], sorted(TH)):
                     res.add_set("harvested_boundaries", "%s.%s theta=%r|%r" % (name, op, lo, hi))
                     bpairs.append((op, lo, hi))
                     ths += [lo, hi]
@@ -263,7 +269,7 @@ def explore_consumer(case):
                     if j > 1e-9:
                         res.fail(site="%s.%s" % (name, op), clause="no_jump_at_switch", cls="switch",
                                  detail=dict(lo=lo, hi=hi, jump=j, axis=ax, translation=tr), sub="consumer", case=case)
-    res.samples.append(dict(config=name, thetas=len(THETAS), axes=len(axes)))
+    res.samples.append(dict(config=name, thetas=len(TH), axes=len(axes)))
     return res
 
 
@@ -321,9 +327,10 @@ def explore_mixed(case):
     p0, v0, R0 = c08.split(config, x0)
     a = np.array([1.0, -2.0, 3.0]) * (3.0 / math.sqrt(14.0))
     prog = sxvm.compile_fn(c08.fn(config))
+    TH = thetas(tier)
     for ax in _axes(seed):
-        ths = list(THETAS)
-        for lo, hi in harvest.walk(prog, lambda t: [list(x0), list(a), list(ax * t), [9.8], [1.0]], sorted(THETAS)):
+        ths = list(TH)
+        for lo, hi in harvest.walk(prog, lambda t: [list(x0), list(a), list(ax * t), [9.8], [1.0]], sorted(TH)):
             res.add_set("harvested_boundaries", "%s theta=%r|%r" % (config, lo, hi))
             ths += [lo, hi]
         for th in sorted(set(ths)):
